@@ -57,12 +57,17 @@ def sami_find_lang(c):
 def gen_set(rng, nlangs):
     # (codes that are prefixes of one another: selecting 'en' must not select 'en-GB')
     langs = rng.sample(["en-US", "fr-FR", "de-DE", "es-ES", "en", "en-GB"], nlangs)
-    mode = rng.choice(["interleaved", "coinciding", "disjoint", "second_earlier", "empty_first"])
+    mode = rng.choice(["interleaved", "coinciding", "disjoint", "second_earlier", "empty_first", "empty_middle", "frames"])
     caps = {}
     for li, l in enumerate(langs):
         k = rng.choice([1, 2, 3])
-        if mode == "empty_first" and li == 0 and nlangs > 1:
+        if (mode == "empty_first" and li == 0 and nlangs > 1) or (mode == "empty_middle" and li == 1 and nlangs > 2):
             caps[l] = CaptionList()
+            continue
+        if mode == "frames":
+            # frame-based times (SCC / DFXP frame counts): back-to-back cues at instants that are not whole milliseconds
+            fr = sorted(rng.sample(range(30 + 7 * li, 900, 7), k + 1))
+            caps[l] = CaptionList([Caption(fr[j] * 1001000 / 30, fr[j + 1] * 1001000 / 30, [T(f"{l}#{j}")]) for j in range(k)])
             continue
         if mode == "coinciding":
             starts = [1000 * (2 * j + 1) for j in range(k)]
@@ -155,6 +160,12 @@ def bounded(ctx, b):
             ok = ok and [cu["lines"][0] for cu in v] == [t for _, t in want[pick]]
             if any(want[l] for l in langs):
                 ok = ok and parsers.parse_webvtt(WebVTTWriter().write(cs, lang="zz-ZZ")) == []
+            # the writers that merge concurrent captions keep every language's cues under that language
+            for Wm in (LegacyDFXPWriter, SinglePositioningDFXPWriter):
+                dm = parsers.parse_dfxp(Wm().write(cs))
+                got_m = {l: [cu["lines"][0] for cu in dm["cues"].get(l, [])] for l in dm["langs"]}
+                if dm["langs"] != langs or got_m != {l: [t for _, t in want[l]] for l in langs}:
+                    return False, {"writer": Wm.__name__, "divs": dm["langs"], "cues": got_m, "expected": want}
             first = langs[0]
             if want[first]:
                 v0 = parsers.parse_webvtt(WebVTTWriter().write(cs))
@@ -169,9 +180,9 @@ def bounded(ctx, b):
         b.guard(("lang=", R.__name__), lab, sample={"reader": R.__name__, "lang": "xx-YY"})
     # DFXP div without xml:lang: document language, then the configured default
     body = '<body><div xml:lang="de"><p begin="1s" end="2s">de eins</p></div><div><p begin="1s" end="2s">doc one</p></div><div xml:lang="fr"><p begin="3s" end="4s">fr</p></div></body>'
-    for ttlang, exp in (('xml:lang="en"', ["de", "en", "fr"]), ("", ["de", "und", "fr"])):
+    for ttlang, exp in (('xml:lang="en"', ["de", "en", "fr"]), ("", ["de", "und", "fr"]), ('xml:lang="it"', ["de", "it", "fr"]), ("", ["de", "und", "fr"])):
         def fb(ttlang=ttlang, exp=exp):
-            cs2 = DFXPReader().read(f'<tt xmlns="http://www.w3.org/ns/ttml" {ttlang}>{body}</tt>')
+            cs2 = SHARED_READERS["dfxp"].read(f'<tt xmlns="http://www.w3.org/ns/ttml" {ttlang}>{body}</tt>')
             mid = exp[1]
             return cs2.get_languages() == exp and [c_.get_text() for c_ in cs2.get_captions(mid)] == ["doc one"] and \
                 [c_.get_text() for c_ in cs2.get_captions("de")] == ["de eins"], {"languages": cs2.get_languages(), "expected": exp}
@@ -193,6 +204,10 @@ def run(ctx):
     P("base.CaptionSet.get_languages", get_languages_order, functions=[CS.get_languages])
     P("dfxp.LegacyDFXPWriter._force_language", legacy_force, functions=[LegacyDFXPWriter._force_language])
     P("sami.SAMIParser._find_lang", sami_find_lang, functions=[SAMIParser._find_lang])
+    # the merge of concurrent captions (legacy / single-position DFXP writers) works language by language: a language
+    # without captions is left alone and receives nothing from its neighbours (contract shared with C19)
+    import props.C19 as C19
+    P("base.merge_concurrent_captions", C19.mcc, functions=[C19.merge_concurrent_captions], setup_interp=C19.setup, crosscheck=False)
     ctx.bounded("multi_language", "caption sets with 1-4 languages, cues sorted and non-overlapping within a language, with "
                 "interleaved / coinciding / disjoint times, a later language starting earlier, an empty first language: SAMI "
                 "output has non-decreasing SYNC blocks with each paragraph in the block of its start under its own class, "
